@@ -1,6 +1,7 @@
 package main
 
 import (
+	"bytes"
 	"encoding/base64"
 	"encoding/json"
 	"fmt"
@@ -68,6 +69,14 @@ func payload(kind, placement string, version interface{}, iss, sub string) strin
 	if version != nil {
 		nats["version"] = version
 	}
+	if payloadIssuerAccount != "" {
+		// (version-2 layout: inside the nats section; version-1 layout: at the top level)
+		if placement == "top" {
+			m["issuer_account"] = payloadIssuerAccount
+		} else {
+			nats["issuer_account"] = payloadIssuerAccount
+		}
+	}
 	m["nats"] = nats
 	b, err := json.Marshal(m)
 	if err != nil {
@@ -75,6 +84,9 @@ func payload(kind, placement string, version interface{}, iss, sub string) strin
 	}
 	return string(b)
 }
+
+// payloadIssuerAccount: when set, payload() names this issuer account
+var payloadIssuerAccount string
 
 // ---------------------------------------------------------------- C02
 
@@ -132,6 +144,36 @@ func runC02(c *Ctx) {
 			}
 		}
 	}
+	// claims that name an issuer account - an account key, a key of another role, the issuer itself, junk: what the
+	// issuer account says never widens who may issue the kind
+	for _, ia := range []string{kr.by["account"].pub, kr.by["user"].pub, kr.by["operator"].pub, kr.by["server"].pub, "junk", " "} {
+		payloadIssuerAccount = ia
+		for _, kind := range []string{"user", "activation", "authorization_response", "account", "generic"} {
+			for _, ir := range allRoles {
+				for _, layout := range []string{"v1", "v2"} {
+					for _, placement := range []string{"top", "nats"} {
+						s := kr.by[ir]
+						var ver interface{} = 2
+						hdr := hdrV2
+						if placement == "top" {
+							ver = nil
+						}
+						if layout == "v1" {
+							hdr = hdrV1
+						}
+						if placement == "nats" && layout == "v1" {
+							ver = 1
+						}
+						ft := forge(hdr, payload(kind, placement, ver, s.pub, kr.by["account"].pub), layout, s)
+						ft.Note = fmt.Sprintf("kind=%s issuer=%s placement=%s naming an issuer account", kind, ir, placement)
+						_, o := processToken(c, w, ft)
+						distinct[fmt.Sprint("ia", kind, ir, layout, placement, ia == kr.by["account"].pub, o.Accepted)] = true
+					}
+				}
+			}
+		}
+	}
+	payloadIssuerAccount = ""
 	// issuers that are well-formed nkeys of NO public role - the private-key, seed and unknown prefixes and two unassigned
 	// ones around a true Ed25519 public key, every token correctly signed by the matching private key: not a public key
 	// of any role, so nobody's claims (generic ones included) are accepted from them
@@ -222,6 +264,9 @@ func runC02(c *Ctx) {
 		signers["curve"] = cv
 	}
 	extendPrefixes()
+	// (what a claim says about its issuer account - nothing, an account, a key of another role, junk - is not part of
+	// the gate: rotated over the matrix)
+	encIssuerAccounts := []string{"", kr.by["account"].pub, kr.by["user"].pub, "junk", kr.by["operator"].pub}
 	subjects := map[string]string{"none": "not-a-key", "empty": ""}
 	for _, r := range allRoles {
 		subjects[r] = kr.by[r].pub
@@ -253,10 +298,12 @@ func runC02(c *Ctx) {
 					case "user":
 						uc := &jwt.UserClaims{}
 						uc.Subject = sub
+						uc.IssuerAccount = encIssuerAccounts[(len(sr)+len(kr_))%len(encIssuerAccounts)]
 						cl = uc
 					case "activation":
 						ac := &jwt.ActivationClaims{}
 						ac.Subject = sub
+						ac.IssuerAccount = encIssuerAccounts[(len(sr)+len(kr_)+1)%len(encIssuerAccounts)]
 						cl = ac
 					case "authorization_request":
 						ac := &jwt.AuthorizationRequestClaims{}
@@ -265,6 +312,7 @@ func runC02(c *Ctx) {
 					case "authorization_response":
 						ac := &jwt.AuthorizationResponseClaims{}
 						ac.Subject = sub
+						ac.IssuerAccount = encIssuerAccounts[(len(sr)+len(kr_)+2)%len(encIssuerAccounts)]
 						cl = ac
 					default:
 						gc := &jwt.GenericClaims{}
@@ -362,7 +410,9 @@ func runC05(c *Ctx) {
 	// declared versions that are not small integers: beyond int64 / uint64, exponent and fraction forms, quoted,
 	// boolean - a payload that "declares a version no newer than 2" declares an integer
 	for _, ver := range []interface{}{json.Number("9223372036854775808"), json.Number("18446744073709551618"), json.Number("1e29"),
-		json.Number("2.5"), json.Number("2.0"), json.Number("2e0"), json.Number("-0"), "3", "2", true, []interface{}{2}, json.Number("3.0000000000000001")} {
+		json.Number("2.5"), json.Number("2.0"), json.Number("2e0"), json.Number("-0"), "3", "2", true, []interface{}{2}, json.Number("3.0000000000000001"),
+		// integers that equal 1 or 2 only after being cut down to 8, 16 or 32 bits: the version is the integer written
+		-254, -255, -510, -511, -65534, -65535, int64(-4294967294), int64(-4294967295), -256, 257, 258, 65537, 65538, int64(4294967297), int64(4294967298), -3, -126, -127, -128} {
 		for _, kind := range kinds {
 			for _, placement := range []string{"top", "nats"} {
 				for _, layout := range []string{"v1", "v2"} {
@@ -968,6 +1018,49 @@ func runC01(c *Ctx) {
 					_, o = processToken(c, w, ft)
 					c.count("layout_cross")
 					distinct[fmt.Sprint("cross", kind, placement, layout, hdr == hdrV1, o.Accepted)] = true
+				}
+			}
+		}
+	}
+	// RICH version-2 payloads (scoped signing keys, limits, permissions - content a version-1 loader cannot read) that
+	// also name their kind at the top level, the version-1 way, signed either way under either header: whichever loader
+	// ends up reading them, the version the returned claims report is the version whose text the signature covers
+	{
+		rg := &valGen{rng: c.Rng, kr: kr, fill: 90, scopeByValue: true}
+		for _, kind := range kindNames {
+			for b := 0; b < 3; b++ {
+				cl, s := rg.newClaims(kind)
+				if ac, ok := cl.(*jwt.AccountClaims); ok {
+					us := jwt.NewUserScope()
+					us.Key, us.Role = kr.by["account"].pub, "rich"
+					if ac.SigningKeys == nil {
+						ac.SigningKeys = jwt.SigningKeys{}
+					}
+					ac.SigningKeys.AddScopedSigner(us)
+				}
+				tok, err := cl.Encode(s.kp)
+				if err != nil {
+					continue
+				}
+				pj, _ := b64.DecodeString(strings.Split(tok, ".")[1])
+				var m map[string]interface{}
+				dec := json.NewDecoder(bytes.NewReader(pj))
+				dec.UseNumber()
+				if dec.Decode(&m) != nil {
+					continue
+				}
+				for _, topKind := range []string{kind, "generic"} {
+					m["type"] = topKind
+					pj2, _ := json.Marshal(m)
+					for _, layout := range []string{"v1", "v2"} {
+						for _, hdr := range []string{hdrV1, hdrV2} {
+							ft := forge(hdr, string(pj2), layout, s)
+							ft.Note = fmt.Sprintf("rich version-2 %s payload with the top-level kind %s, signed the %s way", kind, topKind, layout)
+							_, o := processToken(c, w, ft)
+							c.count("rich_hybrid")
+							distinct[fmt.Sprint("richhybrid", kind, topKind, layout, hdr == hdrV1, o.Accepted)] = true
+						}
+					}
 				}
 			}
 		}
